@@ -1,7 +1,7 @@
 """C01 — script functions mean the same eagerly, as a graph, and as Python."""
 import re
 
-MODULES = ["contracts.c01_analysis", "contracts.c01_converter", "contracts.c11_eager", "contracts.c01_operators"]
+MODULES = ["contracts.c01_analysis", "contracts.c01_converter", "contracts.c11_eager", "contracts.c01_operators", "contracts.c12_anylen:autocast"]
 
 
 def INCLUDE(name):
@@ -125,6 +125,9 @@ sys.exit(0)
 
 def replay(ob):
     name = ob["name"]
+    if name.startswith("cast_inputs.loop"):
+        from props import C12
+        return C12.PROMOTE_REPLAY
     if name.startswith("C01.operators.converter_and_eager") and "[" in name:
         return OPERATOR_REPLAY % name[name.index("[") + 1:-1]
     if name.startswith("C11."):
